@@ -44,6 +44,33 @@ def classify_f14(case):
     return None
 
 
+def classify_f9(case):
+    """narrow: compile() dies in ErrorMessages::composed's assert (byte offsets read as character offsets, C12/C13 F9) where the
+    staged chain -- whose resolver / back-end errors are never composed with the source -- returns the plain error;
+    input predicate: non-ASCII text in the source"""
+    got = case.get("got") if isinstance(case.get("got"), dict) else {}
+    d, st = got.get("direct"), got.get("staged")
+    if (d and st and d[0] == "panic" and "is out of bounds of the source" in d[1] and st[0] == "err"
+            and got.get("stage") in ("pl_to_rq", "rq_to_sql") and any(ord(c) > 127 for c in case.get("src", ""))):
+        return "F9-composed-assert-only-in-compile"
+    return None
+
+
+def classify_staged(case):
+    return classify_f14(case) or classify_f9(case)
+
+
+def classify_empty_ident(case):
+    """narrow: the document has an empty array where an Ident is expected (the model rejects it for that reason) and real
+    serde does not reject but panics in Ident::from_path"""
+    got = case.get("got") if isinstance(case.get("got"), dict) else {}
+    p = got.get("panic") or {}
+    if ("pr/ident.rs" in p.get("loc", "") and "Option::unwrap()" in p.get("msg", "") and "[]" in case.get("json", "")
+            and str(case.get("model", "")).startswith("reject: ident:")):
+        return "F14b-empty-ident-array-panics-json"
+    return None
+
+
 def err_core(r):
     """what is compared of a result: SQL text, or the errors without display/location (see DESIGN C15)"""
     if "ok" in r:
@@ -341,21 +368,22 @@ def run():
                 # VersionReq's Display form; an edit that writes another text there is outside the model's domain
                 ck.stat("edited-documents", "out-of-model:VersionReq-text(trusted codec)"); continue
             root = env.roots[kind]
+            why = ""
             try:
                 mv = env.de(root, j2, root[1])
             except S.DeErr as ex:
-                mv = None
+                mv = None; why = str(ex)
             preqs.append({"kind": kind, "json": S.dumps(j2)})
-            pmetas.append((kind, how, mv))
+            pmetas.append((kind, how, mv, why))
         env.hit = hit_before     # edited documents do not count towards descriptor coverage
         pans = harness("c15_reser", preqs)
-        for (kind, how, mv), a, rq_ in zip(pmetas, pans, preqs):
+        for (kind, how, mv, why), a, rq_ in zip(pmetas, pans, preqs):
             root = env.roots[kind]
             ck.count("edited-documents", rq_["json"])
-            case = {"kind": kind, "edit": how, "json": rq_["json"][:1500]}
+            case = {"kind": kind, "edit": how, "json": rq_["json"][:1500], "model": "accept" if mv is not None else "reject: " + why}
             if "ok" not in a and "de_err" not in a:
                 case["got"] = a
-                ck.violation("real serde fails (not a clean rejection) on an edited document", case); continue
+                ck.disagreement("real serde fails (not a clean rejection) on an edited document", case, classify_empty_ident); continue
             if ("ok" in a) != (mv is not None):
                 case["got"] = {"model": "accepts" if mv is not None else "rejects", "real": a if "ok" not in a else "accepts"}
                 ck.violation("model `de` and real serde disagree on accepting an edited %s document (%s)" % (kind.upper(), how), case); continue
@@ -469,7 +497,7 @@ def run():
             if (len(ds) > 1 or len(ss) > 1) and (ds & ss):
                 ck.stat("staged-vs-direct", "output-varies-between-calls(C11)")
                 continue
-            ck.disagreement("staged chain differs from compile() (%s vs %s)" % (dc[0], sc[0]), case, classify_f14)
+            ck.disagreement("staged chain differs from compile() (%s vs %s)" % (dc[0], sc[0]), case, classify_staged)
     ck.coverage["staged_matrix"] = {"programs": len(sp), "dialects": len(names), "formats": 2, "signature": 2, "plus_no_target_option": True}
 
     # F14 in the model: the witness of c15_roundtrip_refuted_nonfinite replayed on the implementation
@@ -479,6 +507,20 @@ def run():
         ck.coverage["f14_witness_replayed"] = True
     else:
         ck.coverage["f14_witness_replayed"] = False
+
+    # F14b / F9 directed: reproduced on every run
+    a = harness1("c15_reser", {"kind": "pl", "json": '{"name":"P","stmts":[{"ImportDef":{"alias":null,"name":[]}}]}'})
+    if "panic" in a:
+        ck.disagreement("real serde fails (not a clean rejection) on an edited document",
+                        {"kind": "pl", "edit": "directed", "json": '{"name":"P","stmts":[{"ImportDef":{"alias":null,"name":[]}}]}',
+                         "model": "reject: ident: expected non-empty array of strings", "got": a}, classify_empty_ident)
+    src9 = 'from [{a = "é 漢 \\u{1F600} é 漢"}] | join u (==id)'
+    a = harness1("c15_both", {"src": src9, "target": "sql.sqlite"})
+    if "panic" in a.get("direct", {}):
+        st = a["staged"]
+        ck.disagreement("staged chain differs from compile() (panic vs err)",
+                        {"src": src9, "target": "sql.sqlite", "got": {"direct": err_core(a["direct"]), "staged": err_core(st["r"]) if isinstance(st, dict) and "r" in st else err_core(st),
+                                                                     "stage": st.get("stage") if isinstance(st, dict) else None}}, classify_staged)
 
     ck.proof_broken_violation(found_input=any(not ni for _, _, ni in ck.violations))
     ck.assumptions += [
